@@ -260,7 +260,7 @@ PROPS["C12"] = dict(
                   dict(harness="iter", build="plain", runs=8000000, offset=2000000, wall_cap=2400)],
     ),
     rule=("a case is one seeded walk (1-40 steps) of two walker actors, each holding an iterator of the run's kind and a model index, over a container of 0-40 elements "
-          "(kinds: bitset iterators of three block types incl. const; optional/complex vector and array iterators, const and reverse; xstepping_iterator with steps 1,2,3,5; key and value iterators over a map; "
+          "(kinds: bitset iterators of three block types incl. const; optional/complex vector and array iterators: iterator, const_iterator through cbegin/cend and through the const overloads of begin/end, reverse_iterator, const_reverse_iterator through the const overloads of rbegin/rend; xstepping_iterator with steps 1,2,3,5; key and value iterators over a map; "
           "a minimal iterator deriving from xrandom_access_iterator_base and xrandom_access_iterator_ext). Steps: ++ -- it++ it-- += -= it+n n+it it-n it[n] a-b, the six comparisons, dereference, write, the size_t overloads, "
           "full forward and backward traversal, container resize with walkers re-seated. Every result is compared with index arithmetic on the model; both walkers are re-validated after every step. "
           "There is no fault or environment dimension in this property (stated in DESIGN.md 4.8). Non-trivial: at least two position-changing steps. Distinct: distinct run digests."),
